@@ -127,7 +127,7 @@ impl Check for C19 {
         "E2: sender host (real KeyspaceGroup + actors + ReplicationService on the real Server) and receiver host (real ReplicationClient::get_state, including its unchecked nested decode) over simulated TCP/HTTP2; garbage arm: a same-URI impostor service answers with an undecodable nested state inside a valid outer frame"
     }
     fn rule(&self) -> &'static str {
-        "Cases: sender states built through the real actor from seeded histories: 0 / tombstone-only / 1..5000 entries, 1-255 origins, both sources, timestamps spread over 4 ms .. 12 h (so per-origin purge cut-offs differ), optionally purged; the history is applied in 1-4 slices (one may be empty) with an optional purge after each, and the receiver fetches after every slice, so consecutive fetches are separated by writes, by a purge only, or by nothing; sizes sweep the nested payload's length and alignment classes. Oracle: the set the receiver obtains lists the same live ids, tombstones and timestamps as the sender's own Serialize output (validated decode), answers will_apply identically on a probe grid around every stored stamp (-1 h, -4 ms, 0, +4 ms, +1 h; held and fresh keys) and around every origin's cut-off, and yields the same diff for seeded third-party sets. Garbage arm (each in its own worker process): nested state empty / random bytes / truncated / one byte flipped -> get_state must return Err, not a set (a returned set, a panic or a crash is the violation). Non-trivial = >= 2 entries or a garbage case. Distinct = hash of (history seed, size, origins, garbage kind)."
+        "Cases: sender states built through the real actor from seeded histories: 0 / tombstone-only / 1..5000 entries, 1-255 origins, both sources, timestamps spread over 4 ms .. 12 h (so per-origin purge cut-offs differ), optionally purged; the history is applied in 1-4 slices (one may be empty) with an optional purge after each, and the receiver fetches after every slice, so consecutive fetches are separated by writes, by a purge only, or by nothing; sizes sweep the nested payload's length and alignment classes. Oracle: the set the receiver obtains lists the same live ids, tombstones and timestamps as (a) the sender's own Serialize output (validated decode) and (b) a set of the harness's own to which the same history and purges were applied, answers will_apply identically on a probe grid around every stored stamp (-1 h, -4 ms, 0, +4 ms, +1 h; held and fresh keys) and around every origin's cut-off, and yields the same diff for seeded third-party sets. Garbage arm (each in its own worker process): nested state empty / random bytes / truncated / one byte flipped -> get_state must return Err, not a set (a returned set, a panic or a crash is the violation). Non-trivial = >= 2 entries or a garbage case. Distinct = hash of (history seed, size, origins, garbage kind)."
     }
     fn assumptions(&self) -> Vec<String> {
         vec![
@@ -207,6 +207,9 @@ impl Check for C19 {
         let got: Rc<RefCell<Option<Result<OrSWotSet<2>, String>>>> = Rc::new(RefCell::new(None));
         let truths: Rc<RefCell<Vec<OrSWotSet<2>>>> = Rc::new(RefCell::new(Vec::new()));
         let gots: Rc<RefCell<Vec<Result<OrSWotSet<2>, String>>>> = Rc::new(RefCell::new(Vec::new()));
+        // an independent account of the sender's state: the same history applied to a set of the
+        // harness's own, the way the actor applies it (will_apply, then insert/delete; purge = purge)
+        let models: Rc<RefCell<Vec<OrSWotSet<2>>>> = Rc::new(RefCell::new(Vec::new()));
         let (ctl_tx, ctl_rx0) = tokio::sync::mpsc::unbounded_channel::<()>();
         let ctl_rx = Rc::new(RefCell::new(Some(ctl_rx0)));
         datacake_crdt::verif::set_wall_clock(Some(Box::new(|_n| datacake_crdt::DATACAKE_EPOCH + Duration::from_millis(BASE_MS + 50_000_000) + turmoil::elapsed())));
@@ -218,10 +221,11 @@ impl Check for C19 {
             .build_with_rng(Box::new(rand::rngs::SmallRng::seed_from_u64(sc.net_seed)));
         let ready = Rc::new(tokio::sync::Notify::new());
         {
-            let (hist, truth, truth_bytes, ready, sc2, truths, ctl_rx) = (hist.clone(), truth.clone(), truth_bytes.clone(), ready.clone(), sc.clone(), truths.clone(), ctl_rx.clone());
+            let (hist, truth, truth_bytes, ready, sc2, truths, ctl_rx, models) = (hist.clone(), truth.clone(), truth_bytes.clone(), ready.clone(), sc.clone(), truths.clone(), ctl_rx.clone(), models.clone());
             sim.host("sender", move || {
-                let (hist, truth, truth_bytes, ready, sc, truths, ctl_rx) = (hist.clone(), truth.clone(), truth_bytes.clone(), ready.clone(), sc2.clone(), truths.clone(), ctl_rx.clone());
+                let (hist, truth, truth_bytes, ready, sc, truths, ctl_rx, models) = (hist.clone(), truth.clone(), truth_bytes.clone(), ready.clone(), sc2.clone(), truths.clone(), ctl_rx.clone(), models.clone());
                 async move {
+                    let mut model = OrSWotSet::<2>::default();
                     let server = Server::listen((IpAddr::from(Ipv4Addr::UNSPECIFIED), PORT).into()).await?;
                     let clock = Clock::new(200);
                     let storage = SimStorage::default();
@@ -245,11 +249,20 @@ impl Check for C19 {
                             } else {
                                 let _ = mb.send(ecv::Set { source: *source, doc: Document::new(*id, *ts, vec![1u8]), ctx: None, _marker: PhantomData }).await;
                             }
+                            if model.will_apply(*id, *ts) {
+                                if *del {
+                                    model.delete_with_source(*source, *id, *ts);
+                                } else {
+                                    model.insert_with_source(*source, *id, *ts);
+                                }
+                            }
                         }
                         let purge_now = if sc.garbage.is_some() { sc.purge } else { sc.purge_mask & (1 << phase) != 0 || (sc.purge && phase + 1 == phases) };
                         if purge_now {
                             let _ = mb.send(ecv::PurgeDeletes(PhantomData::<SimStorage>)).await;
+                            let _ = model.purge_old_deletes();
                         }
+                        models.borrow_mut().push(model.clone());
                         bytes = mb.send(ecv::Serialize).await.map_err(|e| e.to_string())?;
                         truths.borrow_mut().push(decode_set(&bytes)?);
                         *truth.borrow_mut() = Some(decode_set(&bytes)?);
@@ -384,10 +397,29 @@ impl Check for C19 {
                     out.violate("C19/get-state-never-returned", format!("{} entries: only {} of {} fetches returned", sc.entries, gots.len(), phases));
                 }
                 out.probe_n("fetches", gots.len() as u64);
+                let models = models.borrow().clone();
                 for (pi, (truth, got)) in truths.iter().zip(gots.iter()).enumerate() {
                     let when = format!("fetch #{} of {}", pi + 1, phases);
                     match got {
                         Ok(recv) => {
+                            if let Some(model) = models.get(pi) {
+                                let (ml, md) = set_listing(model);
+                                let (rl, rd) = set_listing(recv);
+                                if ml != rl {
+                                    let miss: Vec<_> = ml.iter().filter(|x| !rl.contains(x)).take(3).collect();
+                                    let extra: Vec<_> = rl.iter().filter(|x| !ml.contains(x)).take(3).collect();
+                                    out.violate("C19/received-live-entries-differ-from-applied-history", format!("{when}: the history applied so far leaves {} live entries, the receiver decoded {} (missing e.g. {:?}, extra e.g. {:?})", ml.len(), rl.len(), miss, extra));
+                                }
+                                if md != rd {
+                                    let miss: Vec<_> = md.iter().filter(|x| !rd.contains(x)).take(3).collect();
+                                    let extra: Vec<_> = rd.iter().filter(|x| !md.contains(x)).take(3).collect();
+                                    out.violate("C19/received-tombstones-differ-from-applied-history", format!("{when}: the history applied so far leaves {} tombstones, the receiver decoded {} (missing e.g. {:?}, extra e.g. {:?})", md.len(), rd.len(), miss, extra));
+                                }
+                                let grid = probe_grid(model, &sc);
+                                if let Some((k, t)) = grid.iter().find(|(k, t)| model.will_apply(*k, *t) != recv.will_apply(*k, *t)) {
+                                    out.violate("C19/received-state-decides-differently-from-applied-history", format!("{when}: will_apply(key {k}, {t}) is {} after the applied history and {} on the received state", model.will_apply(*k, *t), recv.will_apply(*k, *t)));
+                                }
+                            }
                             let (tl, td) = set_listing(truth);
                             let (rl, rd) = set_listing(recv);
                             if tl != rl {
